@@ -420,7 +420,7 @@ func (c *evalCtx) evalBin(x *EBin) TV {
 	}
 	a, b := c.evalPair(x.X, x.Y)
 	if a.Sort == "Str" && x.Op == "+" {
-		return TV{T: fmt.Sprintf("(str.cat %s %s)", a.T, b.T), Typ: types.Typ[types.String], Sort: "Str"}
+		return TV{T: fmt.Sprintf("(gs.cat %s %s)", a.T, b.T), Typ: types.Typ[types.String], Sort: "Str"}
 	}
 	t := a.Typ
 	if t == nil || isUntyped(t) {
@@ -528,7 +528,7 @@ func (c *evalCtx) evalIndex(x *EIndex) TV {
 			return TV{T: fmt.Sprintf("(select (select %s (sl.arr %s)) (idx.add (sl.off %s) %s))", e.get(c.cur(), k, ks), v.T, v.T, i.T), Typ: u.Elem(), Sort: e.st.sortOf(u.Elem())}
 		case *types.Basic:
 			if v.Sort == "Str" {
-				return TV{T: fmt.Sprintf("(str.at %s %s)", v.T, i.T), Typ: types.Typ[types.Uint8], Sort: e.st.byteSort()}
+				return TV{T: fmt.Sprintf("(gs.at %s %s)", v.T, i.T), Typ: types.Typ[types.Uint8], Sort: e.st.byteSort()}
 			}
 		case *types.Map:
 			_, _, vk, vs := e.mapKeys(u)
@@ -582,11 +582,11 @@ func (c *evalCtx) evalSlice(x *ESlice) TV {
 	}
 	switch v.Sort {
 	case "Str":
-		hi := fmt.Sprintf("(str.len %s)", v.T)
+		hi := fmt.Sprintf("(gs.len %s)", v.T)
 		if x.Hi != nil {
 			hi = c.eval(x.Hi).T
 		}
-		return TV{T: fmt.Sprintf("(str.sub %s %s %s)", v.T, lo, hi), Typ: v.Typ, Sort: "Str"}
+		return TV{T: fmt.Sprintf("(gs.sub %s %s %s)", v.T, lo, hi), Typ: v.Typ, Sort: "Str"}
 	case "Slice":
 		hi := fmt.Sprintf("(sl.len %s)", v.T)
 		if x.Hi != nil {
@@ -629,7 +629,7 @@ func (c *evalCtx) evalCall(x *ECall) TV {
 		v := c.eval(x.Args[0])
 		switch v.Sort {
 		case "Str":
-			return c.intTV(fmt.Sprintf("(str.len %s)", v.T))
+			return c.intTV(fmt.Sprintf("(gs.len %s)", v.T))
 		case "Slice":
 			return c.intTV(fmt.Sprintf("(sl.len %s)", v.T))
 		case "Seq":
@@ -648,6 +648,13 @@ func (c *evalCtx) evalCall(x *ECall) TV {
 		m := c.mutexArg(x.Args[0])
 		k, ks := e.lockKey(m, x.Fn == "rholds")
 		return TV{T: fmt.Sprintf("(select %s %s)", e.get(c.cur(), k, ks), m.obj), Sort: "Bool"}
+	case "iface":
+		// iface(x): the interface value obtained by boxing x (Go's implicit conversion to any)
+		v := c.eval(x.Args[0])
+		if v.Typ == nil {
+			c.fail("iface() of untyped value")
+		}
+		return TV{T: e.box(v.T, v.Typ), Typ: types.NewInterfaceType(nil, nil), Sort: "Iface"}
 	case "deref":
 		v := c.eval(x.Args[0])
 		if v.Typ == nil {
@@ -715,16 +722,16 @@ func (c *evalCtx) evalCall(x *ECall) TV {
 	case "sub":
 		v := c.eval(x.Args[0])
 		lo, hi := c.eval(x.Args[1]), c.eval(x.Args[2])
-		return TV{T: fmt.Sprintf("(str.sub %s %s %s)", v.T, lo.T, hi.T), Typ: types.Typ[types.String], Sort: "Str"}
+		return TV{T: fmt.Sprintf("(gs.sub %s %s %s)", v.T, lo.T, hi.T), Typ: types.Typ[types.String], Sort: "Str"}
 	case "cat":
 		a, b := c.eval(x.Args[0]), c.eval(x.Args[1])
-		return TV{T: fmt.Sprintf("(str.cat %s %s)", a.T, b.T), Typ: types.Typ[types.String], Sort: "Str"}
+		return TV{T: fmt.Sprintf("(gs.cat %s %s)", a.T, b.T), Typ: types.Typ[types.String], Sort: "Str"}
 	case "string":
 		v := c.eval(x.Args[0])
 		if v.Sort == "Slice" {
 			elem := v.Typ.Underlying().(*types.Slice).Elem()
 			k, ks := e.elemsKey(elem)
-			return TV{T: fmt.Sprintf("(str.of (sl.arr %s) (select %s (sl.arr %s)) (sl.off %s) (sl.len %s))", v.T, e.get(c.cur(), k, ks), v.T, v.T, v.T), Typ: types.Typ[types.String], Sort: "Str"}
+			return TV{T: fmt.Sprintf("(gs.of (sl.arr %s) (select %s (sl.arr %s)) (sl.off %s) (sl.len %s))", v.T, e.get(c.cur(), k, ks), v.T, v.T, v.T), Typ: types.Typ[types.String], Sort: "Str"}
 		}
 		return v
 	case "int":
